@@ -7,7 +7,7 @@
 (* and the opaque paths of the machine are exercised.                       *)
 (***************************************************************************)
 EXTENDS GridSystem
-CONSTANTS MaxDepth,     \* CONSTRAINT: behaviours of at most this many calls
+CONSTANTS MaxDepth,     \* behaviours of at most this many calls (after the scenario prefix)
           Scenario      \* 0 = empty start; k > 0 = start after the k-th prefix below
 
 MC_Methods == {"lebedev", "maxdet"}
@@ -64,11 +64,18 @@ PrefixOf(sc_) ==
     CASE sc_ = 1 -> << <<"NewAtom", "lebedev", 3, 1>>, <<"NewAtom", "maxdet", 3, 2>>, <<"NewMol", 1, 2, 2, 0>> >>
       [] sc_ = 2 -> << <<"NewAngular", "lebedev", 3, 1>>, <<"NewAtom", "lebedev", 3, 2>>, <<"NewMol", 2, 2, 1, 1>> >>
       [] sc_ = 3 -> << <<"NewGrid", 1, 1, 3>>, <<"Query", 1, <<1, 1, 0>>, Inf, <<0, 1, 2>>>> >>
+      [] sc_ = 4 -> << <<"NewGrid", 1, 1, 3>>, <<"Query", 1, <<1, 1, 0>>, 3, <<0, 1, 2>>>> >>
+      [] sc_ = 5 -> << <<"NewGrid", 1, 1, 4>>, <<"Query", 1, <<1, 1, 0>>, 3, <<0, 1, 2>>>>, <<"SetPoints", 1, 2>> >>
+      [] sc_ = 6 -> << <<"NewAtom", "lebedev", 3, 1>>, <<"NewAtom", "lebedev", 3, 2>>, <<"NewMol", 1, 2, 2, 0>>, <<"GetAtomic", 3, 1>> >>
       [] OTHER -> <<>>
 Prefix == PrefixOf(Scenario)
+\* The bound on the number of calls is part of the state (TLCGet("level") is not exact when several workers
+\* run the breadth-first search: a state first reached by a worker that is ahead gets a deeper level).
+VARIABLE calls
 ScInit == LET r == RunSeq(S0, Prefix, 1)
-          IN heap = r.s.heap /\ cache = r.s.cache /\ objs = r.s.objs /\ obs = r.obs
-DepthBound == TLCGet("level") <= MaxDepth
+          IN heap = r.s.heap /\ cache = r.s.cache /\ objs = r.s.objs /\ obs = r.obs /\ calls = 0
+BoundedNext == calls < MaxDepth /\ Next /\ calls' = calls + 1
+DepthBound == calls <= MaxDepth /\ TLCGet("level") <= MaxDepth + 1
 \* action coverage without -coverage (whose cost model does not terminate on this module): every action name
 \* is printed the first time a worker sees a state produced by it
 ActNames == <<"NewAngular", "NewGrid", "NewGridFrom", "SetPoints", "SetWeights", "Edit", "Query", "GetItem",
